@@ -94,6 +94,9 @@ type Env struct {
 	Xfers []Xfer
 	// XferPos, when set, gives the position in the caller's own event stream at which a transfer happens
 	XferPos func() int
+	// OnTransfer, when set, is called just before a transfer is performed (a scheduling point between EVM.Call's
+	// CloneWithCtx and the execution of a precompile)
+	OnTransfer func(from, to common.Address)
 }
 
 // Xfer is one observation of the wrapped Transfer function.
@@ -153,6 +156,9 @@ func NewEnv(o EnvOpts) *Env {
 		Transfer: func(db vm.StateDB, from, to common.Address, amt *big.Int) {
 			x := Xfer{Seq: e.Rec.next(), From: fmt.Sprintf("%x", from[:]), To: fmt.Sprintf("%x", to[:]), Amt: amt.String()}
 			x.Before = [2]string{db.GetBalance(from).String(), db.GetBalance(to).String()}
+			if e.OnTransfer != nil {
+				e.OnTransfer(from, to)
+			}
 			acore.Transfer(db, from, to, amt)
 			x.After = [2]string{db.GetBalance(from).String(), db.GetBalance(to).String()}
 			if e.XferPos != nil {
